@@ -1122,6 +1122,13 @@ class Process(StateMachine, persistence.Savable, metaclass=ProcessStateMachineMe
             # The failure comes from a termination hook that ran after the process was closed, which dropped the state
             # event hooks: they are needed once more for entering the excepted state (setting the future, notifying)
             self._setup_event_hooks()
+        if self._state is not None and self._state.in_state and not self._state.is_terminal():
+            # The transition below does not exit the current state again (its exit hooks may be what failed), but the
+            # state itself has to be left: a step blocked in a waiting state is woken up by it
+            try:
+                self._state.do_exit()
+            except Exception:
+                pass
         self.transition_to(new_state)
 
     def pause(self, msg_text: Optional[str] = None) -> Union[bool, futures.CancellableAction]:
